@@ -3,23 +3,13 @@
 import json, pathlib
 ROOT = pathlib.Path(__file__).resolve().parents[1]
 
-CHECKS = {
- "C01": dict(
-   text="Lean 4 theorems about a timed model of send_message/_await_response (Await.run: well-founded recursion, arbitrary poll period, both tie orders, histories of any length): a return is the payload of the first response bearing the sent id, foreign/same-id-request/batch messages never complete the call, timeout iff no matching response, one request written. The hand-written model is tied to the code by a correspondence run of the real send_message under a virtual-time event loop.",
-   note="Trusted: Lean kernel (axioms propext, Classical.choice, Quot.sound only), the correspondence harness and virtual-time loop; anyio/asyncio semantics are sampled, not proved. result:null responses are outside the quantifier.",
-   technique="Lean 4 proof (fun_induction over a timed state-machine model) + differential correspondence run under virtual time",
-   design="5/C01"),
- "C07": dict(
-   text="Lean 4 theorems over ALL integers about the classifier regenerated from types/errors.py on every run (total, non-retryable exactly on the documented permanent set, sets disjoint, named codes partitioned), plus theorems on the timed send_message model that a first-matching error response always raises with the server's code/message and never returns; bool helpers map errors to False. Translation validation of the regenerated function on -33100..-31900, -200..200 and seeded 64-bit values; correspondence of the error path through send_message and every typed helper.",
-   note="Trusted: Lean kernel, the AST translator (validated against the real function on the exhaustive grid every run), the correspondence harness; the documented permanent set is pinned from the verified commit.",
-   technique="Lean 4 proof over a model regenerated from source by a translator + translation validation + correspondence run",
-   design="5/C07"),
- "C14": dict(
-   text="Lean 4 theorems on the timed send_message model, for every history and any positive poll period: completion never later than the deadline, cancellation latency <= one poll period, CancelledError only if the token fired, exactly one cancelled notification iff cancelled, cancelled-before-send writes no request, progress callbacks = exactly the matching-token notifications consumed before completion in order, callback failures irrelevant. Tied to the code by the virtual-time correspondence run over cancel/response/deadline placements x traffic x progress streams x tie orders.",
-   note="Trusted: Lean kernel, correspondence harness, virtual-time loop; anyio cancel scopes/fail_after semantics are sampled, not proved.",
-   technique="Lean 4 proof (invariants by functional induction on a timed model) + differential correspondence run under virtual time",
-   design="5/C14"),
-}
+import importlib, sys
+sys.path.insert(0, str(ROOT / "py"))
+CHECKS = {}
+for f in sorted((ROOT / "py" / "verifpy" / "props").glob("c[0-9][0-9].py")):
+    mod = importlib.import_module(f"verifpy.props.{f.stem}")
+    if hasattr(mod, "MANIFEST"):
+        CHECKS[f.stem.upper()] = mod.MANIFEST
 
 TITLES = {}
 for line in (ROOT / "properties.jsonl").read_text().splitlines():
